@@ -21,6 +21,7 @@ func (p *poolWrap) PrepareContext(ctx context.Context, query string) (*sql.Stmt,
 	}
 	st, err := p.db.PrepareContext(ctx, query)
 	p.s.note("prepared", query, err)
+	p.s.failed(ctx, query, err)
 	return st, err
 }
 
@@ -59,5 +60,6 @@ func (t *txWrap) PrepareContext(ctx context.Context, query string) (*sql.Stmt, e
 	}
 	st, err := t.Tx.PrepareContext(ctx, query)
 	t.s.note("prepared-tx", query, err)
+	t.s.failed(ctx, query, err)
 	return st, err
 }
